@@ -1,5 +1,5 @@
 (* Proofs about the exporter model (Algo/Export.v) against the specification Spec/PC06.v. *)
-From BT Require Import Base.Prelude Base.Str Base.Rose Algo.Export Spec.PC06.
+From BT Require Import Base.Prelude Base.Str Base.StrSep Base.Rose Algo.Export Spec.PC06.
 From Coq Require Import Permutation.
 
 (* ---------------------------------------------------------------------------------------------- *)
@@ -628,118 +628,65 @@ Lemma same_tree_norm dn t : valid_tree t = true -> same_tree dn t (Ret (norm_tre
 Proof. intros Hv. unfold same_tree. rewrite sort_norm_tree by exact Hv. apply tree_eqb_refl. Qed.
 
 (* ---------------------------------------------------------------------------------------------- *)
-(* parsing a path string written with a single-character separator that occurs in no name *)
+(* parsing a path string written with a separator of any positive length none of whose characters
+   occurs in a name (Base/StrSep.v) *)
 
-Section Parse.
-  Variable c : N.
-  Definition clean (w : str) : Prop := w <> [] /\ ~ In c w.
+Lemma contains_char c w : contains w [c] = false -> ~ In c w.
+Proof.
+  induction w as [|x w IH]; intros H; [intros []|]. cbn [contains startswith] in H.
+  apply orb_false_iff in H as [H1 H2]. rewrite andb_true_r in H1. apply N.eqb_neq in H1.
+  intros [E|Hin]; [congruence|]. apply IH; assumption.
+Qed.
 
-  Lemma contains_char w : contains w [c] = false -> ~ In c w.
-  Proof.
-    induction w as [|x w IH]; intros H; [intros []|]. cbn [contains startswith] in H.
-    apply orb_false_iff in H as [H1 H2]. rewrite andb_true_r in H1. apply N.eqb_neq in H1.
-    intros [E|Hin]; [congruence|]. apply IH; assumption.
-  Qed.
+Lemma split_join_any sp L : sp <> [] -> L <> [] -> Forall (sfree sp) L -> split (join sp L) sp = L.
+Proof. intros Hsp. destruct sp as [|a sp']; [contradiction|]. apply split_join_multi. Qed.
 
-  Lemma split_go_word w : ~ In c w -> forall fuel cur rest,
-    split_go (length w + fuel) [c] cur (w ++ rest) = split_go fuel [c] (rev w ++ cur) rest.
-  Proof.
-    induction w as [|x w IH]; intros Hw fuel cur rest; [reflexivity|].
-    cbn [length Nat.add app split_go startswith].
-    assert (E : N.eqb c x = false) by (apply N.eqb_neq; intros ->; apply Hw; left; reflexivity).
-    rewrite E. cbn [andb]. rewrite IH by (intros Hin; apply Hw; right; exact Hin).
-    cbn [rev]. rewrite <- app_assoc. reflexivity.
-  Qed.
+Lemma is_empty_app sp x : sp <> [] -> is_empty (sp ++ x) = false.
+Proof. intros H. destruct sp; [contradiction|reflexivity]. Qed.
 
-  Lemma split_go_nil fuel cur : split_go fuel [c] cur [] = [rev cur].
-  Proof. destruct fuel; reflexivity. Qed.
+Definition clean (sp w : str) : Prop := sgood sp w.
 
-  Lemma split_go_join ws : forall w cur fuel,
-    Forall (fun w => ~ In c w) (w :: ws) -> length (join [c] (w :: ws)) < fuel ->
-    split_go fuel [c] cur (join [c] (w :: ws)) = (rev cur ++ w) :: ws.
-  Proof.
-    induction ws as [|w2 ws IH]; intros w cur fuel HF Hlen; inversion HF as [|? ? Hw HF']; subst.
-    - cbn [join] in *. pose proof (split_go_word w Hw (fuel - length w) cur []) as E.
-      rewrite app_nil_r in E. replace (length w + (fuel - length w)) with fuel in E by lia.
-      rewrite E, split_go_nil, rev_app_distr, rev_involutive. reflexivity.
-    - rewrite join_cons in *. unfold str in *. rewrite !app_length in Hlen. cbn [length] in Hlen.
-      pose proof (split_go_word w Hw (S (fuel - length w - 1)) cur ([c] ++ join [c] (w2 :: ws))) as E.
-      replace (length w + S (fuel - length w - 1)) with fuel in E by lia. eapply eq_trans; [exact E|]. clear E.
-      cbn [app split_go startswith]. rewrite N.eqb_refl. cbn [andb length skipn].
-      rewrite rev_app_distr, rev_involutive. f_equal.
-      rewrite IH; [reflexivity|exact HF'|lia].
-  Qed.
+Lemma clean_sfree sp l : Forall (clean sp) l -> Forall (sfree sp) l.
+Proof. intros H. eapply Forall_impl; [|exact H]. intros x [_ Hx]. exact Hx. Qed.
 
-  Lemma split_join w ws : Forall (fun w => ~ In c w) (w :: ws) -> split (join [c] (w :: ws)) [c] = w :: ws.
-  Proof. intros H. unfold split. rewrite split_go_join; [reflexivity|exact H|lia]. Qed.
+Lemma strip_path_ok sp w ws : Forall (clean sp) (w :: ws) ->
+  strip_path (path_name sp (w :: ws)) sp = join sp (w :: ws).
+Proof.
+  intros HF. unfold strip_path, path_name. rewrite lstrip_sep_join by (try discriminate; exact HF).
+  apply (rstrip_join_multi sp (w :: ws) []); [discriminate|exact HF].
+Qed.
 
-  Lemma join_head x w ws : exists s, join [c] ((x :: w) :: ws) = x :: s.
-  Proof. destruct ws; [exists w; reflexivity|]. rewrite join_cons. eexists. reflexivity. Qed.
+Lemma branch_of_path sp l : sp <> [] -> l <> [] -> Forall (clean sp) l -> branch_of (path_name sp l) sp = l.
+Proof.
+  intros Hsp Hne HF. destruct l as [|w ws]; [contradiction|].
+  unfold branch_of. rewrite strip_path_ok by exact HF. apply split_join_any; [exact Hsp|discriminate|].
+  apply clean_sfree. exact HF.
+Qed.
 
-  Lemma join_last ws : forall w, Forall clean (w :: ws) -> exists s y, join [c] (w :: ws) = s ++ [y] /\ y <> c.
-  Proof.
-    induction ws as [|w2 ws IH]; intros w HF; inversion HF as [|? ? [Hne Hc] HF']; subst.
-    - cbn [join]. destruct (exists_last Hne) as [s [y E]]. exists s, y. split; [exact E|].
-      intros ->. apply Hc. rewrite E. apply in_or_app. right. left. reflexivity.
-    - destruct (IH w2 HF') as [s [y [E Hy]]]. rewrite join_cons, E. exists (w ++ [c] ++ s), y.
-      split; [|exact Hy]. rewrite <- !app_assoc. reflexivity.
-  Qed.
+Lemma path_name_inj sp l1 l2 : sp <> [] -> l1 <> [] -> l2 <> [] -> Forall (clean sp) l1 -> Forall (clean sp) l2 ->
+  path_name sp l1 = path_name sp l2 -> l1 = l2.
+Proof.
+  intros Hsp N1 N2 H1 H2 E.
+  rewrite <- (branch_of_path sp l1 Hsp N1 H1), <- (branch_of_path sp l2 Hsp N2 H2), E. reflexivity.
+Qed.
 
-  Lemma memN_single x : memN x [c] = N.eqb x c.
-  Proof. unfold memN. cbn. apply orb_false_r. Qed.
+Lemma add_branch_name names na t : tname (add_branch names na t) = tname t.
+Proof. destruct names, t; reflexivity. Qed.
 
-  Lemma lstrip_sep s : lstrip (c :: s) [c] = lstrip s [c].
-  Proof. cbn [lstrip]. rewrite memN_single, N.eqb_refl. reflexivity. Qed.
+Lemma no_empty_component sp rest : Forall (clean sp) rest -> existsb is_empty rest = false.
+Proof.
+  induction rest as [|w rest IH]; intros HF; [reflexivity|]. inversion HF as [|? ? [Hw _] HF']; subst.
+  cbn [existsb]. destruct w; [contradiction|]. cbn. apply IH. exact HF'.
+Qed.
 
-  Lemma lstrip_other x s : x <> c -> lstrip (x :: s) [c] = x :: s.
-  Proof. intros H. cbn [lstrip]. rewrite memN_single. apply N.eqb_neq in H. rewrite H. reflexivity. Qed.
-
-  Lemma rstrip_other s y : y <> c -> rstrip (s ++ [y]) [c] = s ++ [y].
-  Proof.
-    intros H. unfold rstrip. rewrite rev_app_distr. cbn [rev app]. rewrite lstrip_other by exact H.
-    cbn [rev]. rewrite rev_involutive. reflexivity.
-  Qed.
-
-  Lemma strip_path_ok w ws : Forall clean (w :: ws) ->
-    strip_path (path_name [c] (w :: ws)) [c] = join [c] (w :: ws).
-  Proof.
-    intros HF. unfold strip_path, path_name. change ([c] ++ join [c] (w :: ws)) with (c :: join [c] (w :: ws)).
-    rewrite lstrip_sep. destruct (join_last ws w HF) as [s' [y [E Hy]]].
-    inversion HF as [|? ? [Hw Hc] _]; subst. destruct w as [|x w]; [contradiction|].
-    destruct (join_head x w ws) as [s Es].
-    assert (Hx : x <> c) by (intros ->; apply Hc; left; reflexivity).
-    unfold str in *. rewrite Es, lstrip_other by exact Hx. rewrite <- Es, E. apply rstrip_other. exact Hy.
-  Qed.
-
-  Lemma branch_of_path l : l <> [] -> Forall clean l -> branch_of (path_name [c] l) [c] = l.
-  Proof.
-    intros Hne HF. destruct l as [|w ws]; [contradiction|].
-    unfold branch_of. rewrite strip_path_ok by exact HF. apply split_join.
-    eapply Forall_impl; [|exact HF]. intros x [_ H]. exact H.
-  Qed.
-
-  Lemma path_name_inj l1 l2 : l1 <> [] -> l2 <> [] -> Forall clean l1 -> Forall clean l2 ->
-    path_name [c] l1 = path_name [c] l2 -> l1 = l2.
-  Proof.
-    intros N1 N2 H1 H2 E. rewrite <- (branch_of_path l1 N1 H1), <- (branch_of_path l2 N2 H2), E. reflexivity.
-  Qed.
-
-  Lemma add_branch_name names na t : tname (add_branch names na t) = tname t.
-  Proof. destruct names, t; reflexivity. Qed.
-
-  Lemma add_path_to_tree_ok t r rest na :
-    tname t = r -> Forall clean (r :: rest) ->
-    add_path_to_tree t (path_name [c] (r :: rest)) [c] na = Ret (add_branch rest na t).
-  Proof.
-    intros Hr HF. unfold add_path_to_tree. rewrite branch_of_path by (try discriminate; exact HF).
-    cbn [path_name app is_empty nonempty negb]. rewrite Hr, str_eqb_refl. cbn [negb].
-    inversion HF as [|? ? _ HF']; subst.
-    assert (E : existsb is_empty rest = false).
-    { clear HF. induction rest as [|w rest IH]; [reflexivity|]. inversion HF' as [|? ? [Hw _] HF'']; subst.
-      cbn [existsb]. destruct w; [contradiction|]. cbn. apply IH. exact HF''. }
-    rewrite E. reflexivity.
-  Qed.
-End Parse.
+Lemma add_path_to_tree_ok sp t r rest na :
+  sp <> [] -> tname t = r -> Forall (clean sp) (r :: rest) ->
+  add_path_to_tree t (path_name sp (r :: rest)) sp na = Ret (add_branch rest na t).
+Proof.
+  intros Hsp Hr HF. unfold add_path_to_tree. rewrite branch_of_path by (try discriminate; assumption).
+  unfold path_name at 1. rewrite is_empty_app by exact Hsp. rewrite Hr, str_eqb_refl. cbn [negb].
+  inversion HF as [|? ? _ HF']; subst. rewrite (no_empty_component sp) by exact HF'. reflexivity.
+Qed.
 
 (* ---------------------------------------------------------------------------------------------- *)
 (* the nodes with their name paths, presented inductively *)
@@ -817,26 +764,39 @@ Proof.
 Qed.
 
 (* names without the separator character *)
-Definition names_clean (c : N) (t : tree) : Prop := Forall (fun n => clean c (tname n)) (pre t).
+Definition names_clean (sp : str) (t : tree) : Prop := Forall (fun n => clean sp (tname n)) (pre t).
 
-Lemma names_clean_of c t : valid_tree t = true -> sep_safe [c] t = true -> names_clean c t.
+Lemma sep_free_nonempty sp t : sep_free sp t = true -> sp <> [].
+Proof. unfold sep_free. intros H E. subst sp. discriminate. Qed.
+
+Lemma names_clean_of sp t : valid_tree t = true -> sep_free sp t = true -> names_clean sp t.
 Proof.
-  unfold valid_tree, sep_safe, names_clean. cbn [nonempty andb]. intros Hv Hs.
+  unfold valid_tree, sep_free, names_clean. intros Hv Hs. apply andb_true_iff in Hs as [_ Hs].
   rewrite forallb_forall in Hv, Hs. apply Forall_forall. intros n Hn. split.
   - specialize (Hv n Hn). unfold node_ok in Hv. apply andb_true_iff in Hv as [Hv _].
     apply andb_true_iff in Hv as [Hv _]. intros E. rewrite E in Hv. discriminate.
-  - apply contains_char. specialize (Hs n Hn). apply negb_true_iff in Hs. exact Hs.
+  - specialize (Hs n Hn). rewrite forallb_forall in Hs. intros ch Hch Hin.
+    specialize (Hs ch Hch). apply negb_true_iff in Hs. apply memN_false in Hs. contradiction.
 Qed.
 
-Lemma names_clean_inv c g n a ks : names_clean c (T g n a ks) ->
-  clean c n /\ Forall (names_clean c) ks.
+(* a one-character separator: "occurs in no name" as a substring is the same guard *)
+Lemma sep_safe_free c t : sep_safe [c] t = true -> sep_free [c] t = true.
+Proof.
+  unfold sep_safe, sep_free. cbn [nonempty andb]. intros H. rewrite forallb_forall in H.
+  apply forallb_forall. intros n Hn. specialize (H n Hn). apply negb_true_iff in H.
+  apply contains_char in H. cbn [forallb]. rewrite andb_true_r. apply negb_true_iff.
+  apply memN_false. exact H.
+Qed.
+
+Lemma names_clean_inv sp g n a ks : names_clean sp (T g n a ks) ->
+  clean sp n /\ Forall (names_clean sp) ks.
 Proof.
   unfold names_clean. cbn [pre]. intros H. inversion H as [|? ? Hn Hr]; subst. split; [exact Hn|].
   apply Forall_forall. intros k Hk. apply Forall_forall. intros x Hx.
   rewrite Forall_forall in Hr. apply Hr. apply in_flat_map. exists k. split; assumption.
 Qed.
 
-Lemma rel_nodes_clean c t : names_clean c t -> Forall (fun pr => Forall (clean c) (fst pr)) (rel_nodes t).
+Lemma rel_nodes_clean sp t : names_clean sp t -> Forall (fun pr => Forall (clean sp) (fst pr)) (rel_nodes t).
 Proof.
   induction t as [g n a ks IH] using tree_ind'. intros Hc.
   apply names_clean_inv in Hc as [Hn Hks]. cbn [rel_nodes]. constructor; [cbn [fst]; constructor; [exact Hn|constructor]|].
@@ -851,16 +811,16 @@ Proof.
 Qed.
 
 (* C06: distinct paths *)
-Lemma paths_nodup c t : valid_tree t = true -> sep_safe [c] t = true ->
-  NoDup (map (c_path [c]) (nodes_under [] t)).
+Lemma paths_nodup sp t : valid_tree t = true -> sep_free sp t = true ->
+  NoDup (map (c_path sp) (nodes_under [] t)).
 Proof.
   intros Hv Hs. rewrite nodes_under_root.
-  change (map (c_path [c]) (rel_nodes t)) with (map (fun pr => path_name [c] (fst pr)) (rel_nodes t)).
-  rewrite <- (map_map fst (path_name [c])). apply NoDup_map_inj_on; [|apply rel_paths_nodup; exact Hv].
+  change (map (c_path sp) (rel_nodes t)) with (map (fun pr => path_name sp (fst pr)) (rel_nodes t)).
+  rewrite <- (map_map fst (path_name sp)). apply NoDup_map_inj_on; [|apply rel_paths_nodup; exact Hv].
   intros x y Hx Hy E. apply in_map_iff in Hx as [px [Ex Hx]]. apply in_map_iff in Hy as [py [Ey Hy]].
-  pose proof (rel_nodes_clean c t (names_clean_of c t Hv Hs)) as Hc. rewrite Forall_forall in Hc.
+  pose proof (rel_nodes_clean sp t (names_clean_of sp t Hv Hs)) as Hc. rewrite Forall_forall in Hc.
   pose proof (rel_nodes_nonempty t) as Hn. rewrite Forall_forall in Hn. subst x y.
-  apply (path_name_inj c); auto.
+  pose proof (sep_free_nonempty sp t Hs) as Hsp. apply (path_name_inj sp); auto.
 Qed.
 
 (* ---------------------------------------------------------------------------------------------- *)
@@ -892,11 +852,11 @@ Proof.
   rewrite Hk, map_map. reflexivity.
 Qed.
 
-Lemma rel_recs_clean c f t : names_clean c t ->
-  Forall (fun qr => Forall (clean c) (tname t :: fst qr)) (rel_recs f t).
+Lemma rel_recs_clean sp f t : names_clean sp t ->
+  Forall (fun qr => Forall (clean sp) (tname t :: fst qr)) (rel_recs f t).
 Proof.
-  intros Hc. pose proof (rel_nodes_clean c t Hc) as H.
-  assert (H' : Forall (fun pr => Forall (clean c) (fst pr)) (map (fun pr => (fst pr, f (snd pr))) (rel_nodes t))).
+  intros Hc. pose proof (rel_nodes_clean sp t Hc) as H.
+  assert (H' : Forall (fun pr => Forall (clean sp) (fst pr)) (map (fun pr => (fst pr, f (snd pr))) (rel_nodes t))).
   { apply Forall_forall. intros pr Hin. apply in_map_iff in Hin as [qr [E Hqr]]. subst pr. cbn [fst].
     rewrite Forall_forall in H. apply H. exact Hqr. }
   rewrite rel_nodes_recs in H'. apply Forall_forall. intros qr Hqr. rewrite Forall_forall in H'.
@@ -1013,13 +973,13 @@ Lemma norm_attrs_keys_nodup dn a : NoDup (map fst a) -> NoDup (map fst (norm_att
 Proof. intros H. unfold norm_attrs. apply filter_keys_nodup. apply sort_keys_nodup. exact H. Qed.
 
 (* the loop of dict_to_tree / dataframe_to_tree over well-formed path strings *)
-Lemma add_paths_ok c r items : forall t0,
-  tname t0 = r -> Forall (fun qr => Forall (clean c) (r :: fst qr)) items ->
-  add_paths [c] (map (fun qr => (path_name [c] (r :: fst qr), snd qr)) items) t0 = Ret (ins_all items t0).
+Lemma add_paths_ok sp r items : sp <> [] -> forall t0,
+  tname t0 = r -> Forall (fun qr => Forall (clean sp) (r :: fst qr)) items ->
+  add_paths sp (map (fun qr => (path_name sp (r :: fst qr), snd qr)) items) t0 = Ret (ins_all items t0).
 Proof.
-  induction items as [|x items IH]; intros t0 Hr HF; [reflexivity|].
+  intros Hsp. induction items as [|x items IH]; intros t0 Hr HF; [reflexivity|].
   inversion HF as [|? ? Hx HF']; subst. cbn [map add_paths fst snd].
-  rewrite (add_path_to_tree_ok c t0 (tname t0)) by (try reflexivity; exact Hx).
+  rewrite (add_path_to_tree_ok sp t0 (tname t0)) by (try reflexivity; assumption).
   rewrite ins_all_cons. apply IH; [|exact HF']. apply add_branch_name.
 Qed.
 
@@ -1031,7 +991,7 @@ Proof.
   intros H. induction l as [|x l IH]; [reflexivity|]. cbn [filter]. rewrite H, IH. reflexivity.
 Qed.
 
-Lemma selected_full c : selected full_opts c = true.
+Lemma selected_full cn : selected full_opts cn = true.
 Proof. reflexivity. Qed.
 
 Lemma rel_nodes_in_pre t pr : In pr (rel_nodes t) -> In (snd pr) (pre t).
@@ -1048,7 +1008,7 @@ Qed.
 
 Definition full_record (x : tree) : record := (s_name, VStr (tname x)) :: describe x.
 
-Lemma dict_record_full c : NoDup (map fst (tattrs (snd c))) -> dict_record full_opts c = full_record (snd c).
+Lemma dict_record_full cn : NoDup (map fst (tattrs (snd cn))) -> dict_record full_opts cn = full_record (snd cn).
 Proof.
   intros H. unfold dict_record, full_record. cbn [full_opts o_name_key o_parent_key field app].
   unfold requested. cbn [o_all_attrs]. apply dict_of_nodup. cbn [map fst]. constructor.
@@ -1056,11 +1016,11 @@ Proof.
   - apply describe_keys_nodup. exact H.
 Qed.
 
-Lemma tree_to_dict_full c t : valid_tree t = true -> sep_safe [c] t = true ->
-  tree_to_dict t [c] [] full_opts
-  = Ret (map (fun pr => (path_name [c] (fst pr), full_record (snd pr))) (rel_nodes t)).
+Lemma tree_to_dict_full sp t : valid_tree t = true -> sep_free sp t = true ->
+  tree_to_dict t sp [] full_opts
+  = Ret (map (fun pr => (path_name sp (fst pr), full_record (snd pr))) (rel_nodes t)).
 Proof.
-  intros Hv Hs. rewrite (tree_to_dict_map t [c] [] full_opts (nodes_under [] t)).
+  intros Hv Hs. rewrite (tree_to_dict_map t sp [] full_opts (nodes_under [] t)).
   - rewrite filter_true by apply selected_full. rewrite nodes_under_root. f_equal.
     apply map_ext_in. intros pr Hpr. unfold c_path, path_name. f_equal. apply dict_record_full.
     apply (valid_node_attrs t); [exact Hv|]. apply rel_nodes_in_pre. exact Hpr.
@@ -1081,53 +1041,59 @@ Proof. intros H. unfold get_or. rewrite H. reflexivity. Qed.
 Lemma get_or_hit k d x r other : @dict_get record k d = Some (x :: r) -> get_or k d other = x :: r.
 Proof. intros H. unfold get_or. rewrite H. reflexivity. Qed.
 
-Lemma dict_to_tree_gen c r R0 d' :
-  clean c r -> R0 <> [] ->
-  (forall k, In k (map fst d') -> exists s, k = c :: s) ->
-  dict_to_tree ((path_name [c] [r], R0) :: d') [c]
-  = add_paths [c] (map (fun pa => (fst pa, dict_del s_name (snd pa))) ((path_name [c] [r], R0) :: d'))
-              (T None r (dict_del s_name R0) []).
+Lemma clean_not_prefixed sp r s : sp <> [] -> clean sp r -> r <> sp ++ s.
 Proof.
-  intros Hr HR Hk. unfold dict_to_tree. cbv zeta.
-  assert (Hb : branch_of (path_name [c] [r]) [c] = [r]).
-  { apply branch_of_path; [discriminate|]. constructor; [exact Hr|constructor]. }
-  rewrite Hb.
-  cbn [hd]. destruct Hr as [Hne Hcr].
-  assert (Hnone : dict_get r ((path_name [c] [r], R0) :: d') = None).
-  { apply dict_get_none. intros Hin. cbn [map fst] in Hin. destruct Hin as [E|Hin].
-    - apply Hcr. rewrite <- E. left. reflexivity.
-    - destruct (Hk r Hin) as [s E]. apply Hcr. rewrite E. left. reflexivity. }
-  rewrite get_or_none by exact Hnone.
-  destruct R0 as [|x R0]; [contradiction|].
-  rewrite (get_or_hit ([c] ++ r) _ x R0).
-  - destruct r as [|y r]; [contradiction|]. reflexivity.
-  - cbn [dict_get]. change (path_name [c] [r]) with ([c] ++ r). rewrite str_eqb_refl. reflexivity.
+  intros Hsp [_ Hf] E. destruct sp as [|a sp']; [contradiction|]. apply (Hf a (or_introl eq_refl)).
+  rewrite E. left. reflexivity.
 Qed.
 
-Lemma dict_to_tree_export c t : valid_tree t = true -> sep_safe [c] t = true ->
-  dict_to_tree (map (fun pr => (path_name [c] (fst pr), full_record (snd pr))) (rel_nodes t)) [c]
+Lemma dict_to_tree_gen sp r R0 d' :
+  sp <> [] -> clean sp r -> R0 <> [] ->
+  (forall k, In k (map fst d') -> exists s, k = sp ++ s) ->
+  dict_to_tree ((path_name sp [r], R0) :: d') sp
+  = add_paths sp (map (fun pa => (fst pa, dict_del s_name (snd pa))) ((path_name sp [r], R0) :: d'))
+              (T None r (dict_del s_name R0) []).
+Proof.
+  intros Hsp Hr HR Hk. unfold dict_to_tree. cbv zeta.
+  assert (Hb : branch_of (path_name sp [r]) sp = [r]).
+  { apply branch_of_path; [exact Hsp|discriminate|]. constructor; [exact Hr|constructor]. }
+  rewrite Hb.
+  cbn [hd].
+  assert (Hnone : dict_get r ((path_name sp [r], R0) :: d') = None).
+  { apply dict_get_none. intros Hin. cbn [map fst] in Hin. destruct Hin as [E|Hin].
+    - apply (clean_not_prefixed sp r r Hsp Hr). symmetry. exact E.
+    - destruct (Hk r Hin) as [s E]. apply (clean_not_prefixed sp r s Hsp Hr). exact E. }
+  rewrite get_or_none by exact Hnone. destruct Hr as [Hne Hcr].
+  destruct R0 as [|x R0]; [contradiction|].
+  rewrite (get_or_hit (sp ++ r) _ x R0).
+  - destruct r as [|y r]; [contradiction|]. reflexivity.
+  - cbn [dict_get]. change (path_name sp [r]) with (sp ++ r). rewrite str_eqb_refl. reflexivity.
+Qed.
+
+Lemma dict_to_tree_export sp t : valid_tree t = true -> sep_free sp t = true ->
+  dict_to_tree (map (fun pr => (path_name sp (fst pr), full_record (snd pr))) (rel_nodes t)) sp
   = Ret (norm_tree false t).
 Proof.
-  intros Hv Hs. pose proof (names_clean_of c t Hv Hs) as Hc.
+  intros Hv Hs. pose proof (names_clean_of sp t Hv Hs) as Hc. pose proof (sep_free_nonempty sp t Hs) as Hsp.
   assert (Hmap : map (fun pa => (fst pa, dict_del s_name (snd pa)))
-                   (map (fun pr => (path_name [c] (fst pr), full_record (snd pr))) (rel_nodes t))
-                 = map (fun qr => (path_name [c] (tname t :: fst qr), snd qr)) (rel_recs describe t)).
+                   (map (fun pr => (path_name sp (fst pr), full_record (snd pr))) (rel_nodes t))
+                 = map (fun qr => (path_name sp (tname t :: fst qr), snd qr)) (rel_recs describe t)).
   { rewrite map_map. cbn [fst snd].
-    rewrite (map_ext _ (fun pr => (path_name [c] (fst pr), describe (snd pr)))) by (intros pr; rewrite dict_del_full; reflexivity).
-    rewrite <- (map_map (fun pr => (fst pr, describe (snd pr))) (fun z => (path_name [c] (fst z), snd z))).
+    rewrite (map_ext _ (fun pr => (path_name sp (fst pr), describe (snd pr)))) by (intros pr; rewrite dict_del_full; reflexivity).
+    rewrite <- (map_map (fun pr => (fst pr, describe (snd pr))) (fun z => (path_name sp (fst z), snd z))).
     rewrite rel_nodes_recs, map_map. reflexivity. }
   assert (Ha : NoDup (map fst (tattrs t))) by (apply (valid_node_attrs t); [exact Hv|destruct t; left; reflexivity]).
   destruct t as [g r a ks].
   pose proof Hc as Hc'. apply names_clean_inv in Hc' as [Hr _].
-  set (G := fun pr : list str * tree => (path_name [c] (fst pr), full_record (snd pr))) in *.
+  set (G := fun pr : list str * tree => (path_name sp (fst pr), full_record (snd pr))) in *.
   change (map G (rel_nodes (T g r a ks)))
-    with ((path_name [c] [r], full_record (T g r a ks))
+    with ((path_name sp [r], full_record (T g r a ks))
             :: map G (flat_map (fun k => map (fun pr => (r :: fst pr, snd pr)) (rel_nodes k)) ks)) at 1.
   rewrite dict_to_tree_gen.
-  - change ((path_name [c] [r], full_record (T g r a ks))
+  - change ((path_name sp [r], full_record (T g r a ks))
             :: map G (flat_map (fun k => map (fun pr => (r :: fst pr, snd pr)) (rel_nodes k)) ks))
       with (map G (rel_nodes (T g r a ks))).
-    rewrite Hmap, dict_del_full. cbn [tname]. rewrite (add_paths_ok c r).
+    rewrite Hmap, dict_del_full. cbn [tname]. rewrite (add_paths_ok sp r).
     + f_equal. cbn [tattrs] in Ha. rewrite (rebuild_from_records describe (T g r a ks)).
       * rewrite norm_tree_rebuild. clear. induction (T g r a ks) as [g' n' a' ks' IH] using tree_ind'.
         cbn [rebuild tattrs]. f_equal; [symmetry; apply norm_attrs_false|].
@@ -1135,16 +1101,18 @@ Proof.
       * exact Hv.
       * intros x. apply describe_keys_nodup.
       * apply dict_update_present; [apply describe_keys_nodup; exact Ha|apply incl_refl].
+    + exact Hsp.
     + reflexivity.
-    + apply (rel_recs_clean c describe (T g r a ks)). exact Hc.
+    + apply (rel_recs_clean sp describe (T g r a ks)). exact Hc.
+  - exact Hsp.
   - exact Hr.
   - discriminate.
   - intros k Hin. rewrite map_map in Hin. cbn [fst] in Hin. apply in_map_iff in Hin as [pr [E _]].
     subst k. eexists. reflexivity.
 Qed.
 
-Theorem rt_dict_ok c t : valid_tree t = true -> sep_safe [c] t = true ->
-  rt_dict t [c] = Ret (norm_tree false t).
+Theorem rt_dict_ok sp t : valid_tree t = true -> sep_free sp t = true ->
+  rt_dict t sp = Ret (norm_tree false t).
 Proof.
   intros Hv Hs. unfold rt_dict. rewrite tree_to_dict_full by assumption. cbn [bind].
   apply dict_to_tree_export; assumption.
@@ -1185,10 +1153,10 @@ Proof.
   cbn [option_map res_map opt_agree]. apply tree_eqb_refl.
 Qed.
 
-Theorem prop_rt_dict_model c t : prop_rt_path false [c] t (rt_dict t [c]) = true.
+Theorem prop_rt_dict_model sp t : prop_rt_path false sp t (rt_dict t sp) = true.
 Proof.
   unfold prop_rt_path. destruct (valid_tree t) eqn:Hv; [|reflexivity].
-  destruct (sep_safe [c] t) eqn:Hs; [|reflexivity]. cbn [andb negb orb].
+  destruct (sep_free sp t) eqn:Hs; [|reflexivity]. cbn [andb negb orb].
   rewrite rt_dict_ok by assumption. apply same_tree_norm. exact Hv.
 Qed.
 
@@ -1275,26 +1243,26 @@ End DictKeys.
 (* ---------------------------------------------------------------------------------------------- *)
 (* frames *)
 
-Definition lookup (c : str) (r : record) : val :=
-  match dict_get c r with Some v => v | None => VNone end.
-Definition fill (cols : list str) (r : record) : record := map (fun c => (c, lookup c r)) cols.
+Definition lookup (col : str) (r : record) : val :=
+  match dict_get col r with Some v => v | None => VNone end.
+Definition fill (cols : list str) (r : record) : record := map (fun col => (col, lookup col r)) cols.
 
 Lemma frame_of_fill rows : frame_columns rows <> [] -> frame_of rows = map (fill (frame_columns rows)) rows.
 Proof. intros H. unfold frame_of. destruct (frame_columns rows) as [|c0 cs]; [contradiction|reflexivity]. Qed.
 
 Lemma dict_get_fill k cols r : In k cols -> dict_get k (fill cols r) = Some (lookup k r).
 Proof.
-  induction cols as [|c cols IH]; intros H; [destruct H|]. cbn [fill map dict_get].
-  destruct (str_eqb k c) eqn:E.
+  induction cols as [|col cols IH]; intros H; [destruct H|]. cbn [fill map dict_get].
+  destruct (str_eqb k col) eqn:E.
   - apply str_eqb_eq in E. subst. reflexivity.
   - apply IH. destruct H as [H|H]; [subst; rewrite str_eqb_refl in E; discriminate|exact H].
 Qed.
 
 Lemma dict_del_fill k cols r :
-  dict_del k (fill cols r) = fill (filter (fun c => negb (str_eqb c k)) cols) r.
+  dict_del k (fill cols r) = fill (filter (fun col => negb (str_eqb col k)) cols) r.
 Proof.
-  induction cols as [|c cols IH]; [reflexivity|]. unfold dict_del, fill in *. cbn [map filter fst].
-  destruct (str_eqb c k); cbn [negb map]; [exact IH|]. f_equal. exact IH.
+  induction cols as [|col cols IH]; [reflexivity|]. unfold dict_del, fill in *. cbn [map filter fst].
+  destruct (str_eqb col k); cbn [negb map]; [exact IH|]. f_equal. exact IH.
 Qed.
 
 Lemma fill_keys cols r : map fst (fill cols r) = cols.
@@ -1319,61 +1287,54 @@ Proof.
 Qed.
 
 (* paths without the leading separator (what is left after pandas' str.lstrip) *)
-Section ParseJoin.
-  Variable c : N.
+Lemma strip_path_join sp w ws : Forall (clean sp) (w :: ws) ->
+  strip_path (join sp (w :: ws)) sp = join sp (w :: ws).
+Proof.
+  intros HF. unfold strip_path. inversion HF as [|? ? Hw _]; subst.
+  assert (E : lstrip (join sp (w :: ws)) sp = join sp (w :: ws)).
+  { destruct ws as [|w2 ws].
+    - cbn [join]. rewrite <- (app_nil_r w). apply lstrip_stop. exact Hw.
+    - rewrite join_cons. apply lstrip_stop. exact Hw. }
+  rewrite E. apply (rstrip_join_multi sp (w :: ws) []); [discriminate|exact HF].
+Qed.
 
-  Lemma strip_path_join w ws : Forall (clean c) (w :: ws) ->
-    strip_path (join [c] (w :: ws)) [c] = join [c] (w :: ws).
-  Proof.
-    intros HF. unfold strip_path. destruct (join_last c ws w HF) as [s' [y [E Hy]]].
-    inversion HF as [|? ? [Hw Hc] _]; subst. destruct w as [|x w]; [contradiction|].
-    destruct (join_head c x w ws) as [s Es].
-    assert (Hx : x <> c) by (intros ->; apply Hc; left; reflexivity).
-    unfold str in *. rewrite Es, lstrip_other by exact Hx. rewrite <- Es, E. apply rstrip_other. exact Hy.
-  Qed.
+Lemma branch_of_join sp l : sp <> [] -> l <> [] -> Forall (clean sp) l -> branch_of (join sp l) sp = l.
+Proof.
+  intros Hsp Hne HF. destruct l as [|w ws]; [contradiction|].
+  unfold branch_of. rewrite strip_path_join by exact HF. apply split_join_any; [exact Hsp|discriminate|].
+  apply clean_sfree. exact HF.
+Qed.
 
-  Lemma branch_of_join l : l <> [] -> Forall (clean c) l -> branch_of (join [c] l) [c] = l.
-  Proof.
-    intros Hne HF. destruct l as [|w ws]; [contradiction|].
-    unfold branch_of. rewrite strip_path_join by exact HF. apply split_join.
-    eapply Forall_impl; [|exact HF]. intros x [_ H]. exact H.
-  Qed.
+Lemma join_not_empty sp w ws : clean sp w -> is_empty (join sp (w :: ws)) = false.
+Proof.
+  intros [Hw _]. destruct w as [|x w]; [contradiction|]. destruct ws; [reflexivity|]. rewrite join_cons. reflexivity.
+Qed.
 
-  Lemma join_not_empty w ws : clean c w -> is_empty (join [c] (w :: ws)) = false.
-  Proof.
-    intros [Hw _]. destruct w as [|x w]; [contradiction|]. destruct (join_head c x w ws) as [s Es].
-    unfold str in *. rewrite Es. reflexivity.
-  Qed.
+Lemma join_inj sp l1 l2 : sp <> [] -> l1 <> [] -> l2 <> [] -> Forall (clean sp) l1 -> Forall (clean sp) l2 ->
+  join sp l1 = join sp l2 -> l1 = l2.
+Proof.
+  intros Hsp N1 N2 H1 H2 E.
+  rewrite <- (branch_of_join sp l1 Hsp N1 H1), <- (branch_of_join sp l2 Hsp N2 H2), E. reflexivity.
+Qed.
 
-  Lemma join_inj l1 l2 : l1 <> [] -> l2 <> [] -> Forall (clean c) l1 -> Forall (clean c) l2 ->
-    join [c] l1 = join [c] l2 -> l1 = l2.
-  Proof.
-    intros N1 N2 H1 H2 E. rewrite <- (branch_of_join l1 N1 H1), <- (branch_of_join l2 N2 H2), E. reflexivity.
-  Qed.
+Lemma add_path_join_ok sp t r rest na :
+  sp <> [] -> tname t = r -> Forall (clean sp) (r :: rest) ->
+  add_path_to_tree t (join sp (r :: rest)) sp na = Ret (add_branch rest na t).
+Proof.
+  intros Hsp Hr HF. unfold add_path_to_tree. rewrite branch_of_join by (try discriminate; assumption).
+  inversion HF as [|? ? Hcr HF']; subst. rewrite join_not_empty by exact Hcr.
+  rewrite str_eqb_refl. cbn [negb]. rewrite (no_empty_component sp) by exact HF'. reflexivity.
+Qed.
 
-  Lemma add_path_join_ok t r rest na :
-    tname t = r -> Forall (clean c) (r :: rest) ->
-    add_path_to_tree t (join [c] (r :: rest)) [c] na = Ret (add_branch rest na t).
-  Proof.
-    intros Hr HF. unfold add_path_to_tree. rewrite branch_of_join by (try discriminate; exact HF).
-    inversion HF as [|? ? Hcr HF']; subst. rewrite join_not_empty by exact Hcr.
-    rewrite str_eqb_refl. cbn [negb].
-    assert (E : existsb is_empty rest = false).
-    { clear HF. induction rest as [|w rest IH]; [reflexivity|]. inversion HF' as [|? ? [Hw _] HF'']; subst.
-      cbn [existsb]. destruct w; [contradiction|]. cbn. apply IH. exact HF''. }
-    rewrite E. reflexivity.
-  Qed.
-
-  Lemma add_paths_join_ok r items : forall t0,
-    tname t0 = r -> Forall (fun qr => Forall (clean c) (r :: fst qr)) items ->
-    add_paths [c] (map (fun qr => (join [c] (r :: fst qr), snd qr)) items) t0 = Ret (ins_all items t0).
-  Proof.
-    induction items as [|x items IH]; intros t0 Hr HF; [reflexivity|].
-    inversion HF as [|? ? Hx HF']; subst. cbn [map add_paths fst snd].
-    rewrite (add_path_join_ok t0 (tname t0)) by (try reflexivity; exact Hx).
-    rewrite ins_all_cons. apply IH; [|exact HF']. apply add_branch_name.
-  Qed.
-End ParseJoin.
+Lemma add_paths_join_ok sp r items : sp <> [] -> forall t0,
+  tname t0 = r -> Forall (fun qr => Forall (clean sp) (r :: fst qr)) items ->
+  add_paths sp (map (fun qr => (join sp (r :: fst qr), snd qr)) items) t0 = Ret (ins_all items t0).
+Proof.
+  intros Hsp. induction items as [|x items IH]; intros t0 Hr HF; [reflexivity|].
+  inversion HF as [|? ? Hx HF']; subst. cbn [map add_paths fst snd].
+  rewrite (add_path_join_ok sp t0 (tname t0)) by (try reflexivity; assumption).
+  rewrite ins_all_cons. apply IH; [|exact HF']. apply add_branch_name.
+Qed.
 
 (* ---------------------------------------------------------------------------------------------- *)
 (* dataframe_to_tree on a frame whose first column holds well-formed paths *)
@@ -1422,24 +1383,25 @@ Proof.
 Qed.
 
 Section FrameImport.
-  Variable c : N.
+  Variable sp : str.
+  Hypothesis Hsp : sp <> [].
 
   Lemma dataframe_to_tree_gen (F : list str * tree -> record) (f : tree -> record) r x0 xs' xs0 :
     xs0 = ([r], x0) :: xs' ->
     let xs := xs0 in
-    (forall pr, In pr xs -> exists rest, F pr = (s_path, VStr (path_name [c] (fst pr))) :: rest) ->
+    (forall pr, In pr xs -> exists rest, F pr = (s_path, VStr (path_name sp (fst pr))) :: rest) ->
     (forall pr, In pr xs -> row_attrs s_path (dict_del s_path (F pr)) = f (snd pr)) ->
-    (forall pr, In pr xs -> fst pr <> [] /\ Forall (clean c) (fst pr)) ->
+    (forall pr, In pr xs -> fst pr <> [] /\ Forall (clean sp) (fst pr)) ->
     NoDup (map fst xs) ->
-    dataframe_to_tree (map F xs) [c]
-    = add_paths [c] (map (fun pr => (join [c] (fst pr), f (snd pr))) xs) (T None r (f x0) []).
+    dataframe_to_tree (map F xs) sp
+    = add_paths sp (map (fun pr => (join sp (fst pr), f (snd pr))) xs) (T None r (f x0) []).
   Proof.
     intros -> xs. intros HF Hf Hc Hnd.
     destruct (HF ([r], x0) (or_introl eq_refl)) as [rest0 E0].
-    rewrite (dataframe_to_tree_unfold (map F xs) s_path (VStr (path_name [c] [r])) rest0 (map F xs') [c])
+    rewrite (dataframe_to_tree_unfold (map F xs) s_path (VStr (path_name sp [r])) rest0 (map F xs') sp)
       by (unfold xs; cbn [map]; rewrite E0; reflexivity).
-    assert (Hs : stripped_of s_path [c] (map F xs)
-                 = map (fun pr => (join [c] (fst pr), dict_del s_path (F pr))) xs).
+    assert (Hs : stripped_of s_path sp (map F xs)
+                 = map (fun pr => (join sp (fst pr), dict_del s_path (F pr))) xs).
     { unfold stripped_of. rewrite map_map. apply map_ext_in. intros pr Hpr.
       destruct (HF pr Hpr) as [rest E]. rewrite E. cbn [dict_get]. rewrite str_eqb_refl. rewrite <- E.
       destruct (Hc pr Hpr) as [Hne Hcl]. destruct (fst pr) as [|w ws] eqn:Ep; [contradiction|].
@@ -1450,21 +1412,21 @@ Section FrameImport.
       apply in_map_iff in Hin as [pr [Epr Hpr]]. destruct (HF pr Hpr) as [rest E]. subst r1. rewrite E.
       cbn [dict_get]. rewrite str_eqb_refl. reflexivity. }
     rewrite He.
-    assert (Hd : dup_conflict (map (fun pr => (join [c] (fst pr), dict_del s_path (F pr))) xs) = false).
-    { apply dup_conflict_nodup. rewrite map_map. cbn [fst]. rewrite <- (map_map fst (join [c])).
+    assert (Hd : dup_conflict (map (fun pr => (join sp (fst pr), dict_del s_path (F pr))) xs) = false).
+    { apply dup_conflict_nodup. rewrite map_map. cbn [fst]. rewrite <- (map_map fst (join sp)).
       apply NoDup_map_inj_on; [|exact Hnd]. intros a b Ha Hb Eab.
       apply in_map_iff in Ha as [pa [Ea Ha]]. apply in_map_iff in Hb as [pb [Eb Hb]]. subst a b.
-      destruct (Hc pa Ha) as [Na Ca]. destruct (Hc pb Hb) as [Nb Cb]. apply (join_inj c); assumption. }
+      destruct (Hc pa Ha) as [Na Ca]. destruct (Hc pb Hb) as [Nb Cb]. apply (join_inj sp); assumption. }
     rewrite Hd. unfold xs at 1. cbn [map fst snd join]. cbv zeta.
     destruct (Hc ([r], x0) (or_introl eq_refl)) as [_ Hr]. cbn [fst] in Hr. inversion Hr as [|? ? Hcr _]; subst.
-    assert (Hsp : split r [c] = [r]).
-    { apply (split_join c r []). constructor; [destruct Hcr as [_ H]; exact H|constructor]. }
+    assert (Hsp : split r sp = [r]).
+    { apply (split_join sp r []). constructor; [destruct Hcr as [_ H]; exact H|constructor]. }
     rewrite Hsp. cbn [hd].
     assert (Hfil : filter (fun pa : str * record => str_eqb (fst pa) r)
-                     (map (fun pr : list str * tree => (join [c] (fst pr), dict_del s_path (F pr))) xs)
+                     (map (fun pr : list str * tree => (join sp (fst pr), dict_del s_path (F pr))) xs)
                    = (r, dict_del s_path (F ([r], x0)))
                        :: filter (fun pa : str * record => str_eqb (fst pa) r)
-                            (map (fun pr : list str * tree => (join [c] (fst pr), dict_del s_path (F pr))) xs')).
+                            (map (fun pr : list str * tree => (join sp (fst pr), dict_del s_path (F pr))) xs')).
     { unfold xs. cbn [map filter fst snd join]. rewrite str_eqb_refl. reflexivity. }
     rewrite Hfil. rewrite (Hf ([r], x0) (or_introl eq_refl)). cbn [snd].
     destruct Hcr as [Hne _]. destruct r as [|y r]; [contradiction|]. cbn [is_empty nonempty negb].
@@ -1515,14 +1477,15 @@ Lemma rel_nodes_shape t : exists xs', rel_nodes t = ([tname t], t) :: xs'.
 Proof. destruct t as [g n a ks]. cbn [rel_nodes tname]. eexists. reflexivity. Qed.
 
 Section FrameRT.
-  Variable c : N.
+  Variable sp : str.
+  Hypothesis Hsp : sp <> [].
 
   Definition frame_full (pr : list str * tree) : record :=
-    (s_path, VStr (path_name [c] (fst pr))) :: (s_name, VStr (tname (snd pr))) :: describe (snd pr).
+    (s_path, VStr (path_name sp (fst pr))) :: (s_name, VStr (tname (snd pr))) :: describe (snd pr).
 
   Lemma frame_record_full pr :
     NoDup (map fst (tattrs (snd pr))) -> ~ In s_path (map fst (tattrs (snd pr))) ->
-    frame_record full_opts [c] pr = frame_full pr.
+    frame_record full_opts sp pr = frame_full pr.
   Proof.
     intros Hn Hp. unfold frame_record, frame_full. cbn [full_opts o_path_col o_name_key o_parent_key field app].
     unfold requested. cbn [o_all_attrs]. apply dict_of_nodup. cbn [map fst]. constructor.
@@ -1531,7 +1494,7 @@ Section FrameRT.
   Qed.
 
   Lemma tree_to_dataframe_full t : valid_tree t = true -> frame_safe t = true ->
-    tree_to_dataframe t [c] [] full_opts = Ret (frame_of (map frame_full (rel_nodes t))).
+    tree_to_dataframe t sp [] full_opts = Ret (frame_of (map frame_full (rel_nodes t))).
   Proof.
     intros Hv Hs. rewrite tree_to_dataframe_spec. unfold spec_frame, nodes_from. cbn [subtree_at].
     change (anc_names t []) with (@nil str). rewrite filter_true by apply selected_full.
@@ -1543,7 +1506,7 @@ Section FrameRT.
 
   Variable t : tree.
   Hypothesis Hv : valid_tree t = true.
-  Hypothesis Hsafe : sep_safe [c] t = true.
+  Hypothesis Hsafe : sep_free sp t = true.
   Hypothesis Hfs : frame_safe t = true.
 
   Let rows := map frame_full (rel_nodes t).
@@ -1558,7 +1521,7 @@ Section FrameRT.
   Qed.
 
   Lemma fill_full_head pr : exists rest,
-    fill cols (frame_full pr) = (s_path, VStr (path_name [c] (fst pr))) :: rest.
+    fill cols (frame_full pr) = (s_path, VStr (path_name sp (fst pr))) :: rest.
   Proof.
     destruct cols_head as [cols' E]. rewrite E. cbn [fill map]. eexists. f_equal.
   Qed.
@@ -1626,20 +1589,20 @@ Section FrameRT.
       intros y Hy. apply Hsub. cbn [pre]. right. apply in_flat_map. exists k. split; assumption.
   Qed.
 
-  Theorem rt_frame_ok : res_map sort_tree (rt_frame t [c]) = Ret (norm_tree true t).
+  Theorem rt_frame_ok : res_map sort_tree (rt_frame t sp) = Ret (norm_tree true t).
   Proof.
     unfold rt_frame. rewrite tree_to_dataframe_full by assumption. cbn [bind]. fold rows.
     assert (Hcols : frame_columns rows <> []).
     { fold cols. destruct cols_head as [cols' E]. rewrite E. discriminate. }
     rewrite frame_of_fill by exact Hcols. fold cols. unfold rows. rewrite map_map.
-    pose proof (names_clean_of c t Hv Hsafe) as Hc.
-    pose proof (rel_nodes_clean c t Hc) as Hcl. rewrite Forall_forall in Hcl.
+    pose proof (names_clean_of sp t Hv Hsafe) as Hc.
+    pose proof (rel_nodes_clean sp t Hc) as Hcl. rewrite Forall_forall in Hcl.
     pose proof (rel_nodes_nonempty t) as Hne. rewrite Forall_forall in Hne.
     destruct (rel_nodes_shape t) as [xs' Exs].
-    rewrite (dataframe_to_tree_gen c (fun pr => fill cols (frame_full pr)) frame_attrs (tname t) t xs' (rel_nodes t) Exs).
-    - rewrite <- (map_map (fun pr => (fst pr, frame_attrs (snd pr))) (fun z => (join [c] (fst z), snd z))).
+    rewrite (dataframe_to_tree_gen sp (fun pr => fill cols (frame_full pr)) frame_attrs (tname t) t xs' (rel_nodes t) Exs).
+    - rewrite <- (map_map (fun pr => (fst pr, frame_attrs (snd pr))) (fun z => (join sp (fst z), snd z))).
       rewrite rel_nodes_recs, map_map. cbn [fst snd].
-      rewrite (add_paths_join_ok c (tname t)) by (try reflexivity; apply rel_recs_clean; exact Hc).
+      rewrite (add_paths_join_ok sp (tname t)) by (try reflexivity; apply rel_recs_clean; exact Hc).
       cbn [res_map]. f_equal.
       rewrite (rebuild_from_records frame_attrs t Hv (fun x _ => frame_attrs_keys_nodup x)).
       + apply sort_rebuild_frame. intros y Hy. exact Hy.
@@ -1651,13 +1614,13 @@ Section FrameRT.
   Qed.
 End FrameRT.
 
-Theorem prop_rt_frame_model c t : prop_rt_path true [c] t (rt_frame t [c]) = true.
+Theorem prop_rt_frame_model sp t : prop_rt_path true sp t (rt_frame t sp) = true.
 Proof.
   unfold prop_rt_path. destruct (valid_tree t) eqn:Hv; [|reflexivity].
-  destruct (sep_safe [c] t) eqn:Hs; [|reflexivity]. cbn [andb negb orb].
+  destruct (sep_free sp t) eqn:Hs; [|reflexivity]. cbn [andb negb orb].
   destruct (frame_safe t) eqn:Hf; [|reflexivity].
-  pose proof (rt_frame_ok c t Hv Hs Hf) as H. unfold same_tree.
-  destruct (rt_frame t [c]) as [t'|e]; cbn [res_map] in H; [|discriminate].
+  pose proof (rt_frame_ok sp t Hv Hs Hf) as H. unfold same_tree.
+  destruct (rt_frame t sp) as [t'|e]; cbn [res_map] in H; [|discriminate].
   injection H as H. rewrite H. apply tree_eqb_refl.
 Qed.
 
@@ -1679,14 +1642,14 @@ Proof.
   apply Hv. eapply subtree_pre_incl; eassumption.
 Qed.
 
-Lemma names_clean_subtree c root p t : names_clean c root -> subtree_at root p = Some t -> names_clean c t.
+Lemma names_clean_subtree sp root p t : names_clean sp root -> subtree_at root p = Some t -> names_clean sp t.
 Proof.
   unfold names_clean. intros Hc Hs. apply Forall_forall. intros x Hx. rewrite Forall_forall in Hc.
   apply Hc. eapply subtree_pre_incl; eassumption.
 Qed.
 
-Lemma anc_names_clean c p : forall root t, names_clean c root -> subtree_at root p = Some t ->
-  Forall (clean c) (anc_names root p).
+Lemma anc_names_clean sp p : forall root t, names_clean sp root -> subtree_at root p = Some t ->
+  Forall (clean sp) (anc_names root p).
 Proof.
   induction p as [|i p IH]; intros root t Hc Hs; [constructor|].
   rewrite anc_names_cons. cbn [subtree_at] in Hs.
@@ -1704,23 +1667,23 @@ Proof.
   apply in_map_iff. exists y. split; assumption.
 Qed.
 
-Lemma paths_nodup_from c root p t :
-  valid_tree root = true -> sep_safe [c] root = true -> subtree_at root p = Some t ->
-  NoDup (map (c_path [c]) (nodes_under (anc_names root p) t)).
+Lemma paths_nodup_from sp root p t :
+  valid_tree root = true -> sep_free sp root = true -> subtree_at root p = Some t ->
+  NoDup (map (c_path sp) (nodes_under (anc_names root p) t)).
 Proof.
-  intros Hv Hs Hp. pose proof (names_clean_of c root Hv Hs) as Hc.
-  pose proof (anc_names_clean c p root t Hc Hp) as Hanc.
-  pose proof (names_clean_subtree c root p t Hc Hp) as Hct.
+  intros Hv Hs Hp. pose proof (names_clean_of sp root Hv Hs) as Hc.
+  pose proof (anc_names_clean sp p root t Hc Hp) as Hanc.
+  pose proof (names_clean_subtree sp root p t Hc Hp) as Hct.
   pose proof (valid_subtree root p t Hv Hp) as Hvt.
   rewrite nodes_under_rel, map_map.
-  change (map (fun x => c_path [c] (anc_names root p ++ fst x, snd x)) (rel_nodes t))
-    with (map (fun x => path_name [c] (anc_names root p ++ fst x)) (rel_nodes t)).
-  rewrite <- (map_map fst (fun l => path_name [c] (anc_names root p ++ l))).
+  change (map (fun x => c_path sp (anc_names root p ++ fst x, snd x)) (rel_nodes t))
+    with (map (fun x => path_name sp (anc_names root p ++ fst x)) (rel_nodes t)).
+  rewrite <- (map_map fst (fun l => path_name sp (anc_names root p ++ l))).
   apply NoDup_map_inj_on; [|apply rel_paths_nodup; exact Hvt].
   intros x y Hx Hy E. apply in_map_iff in Hx as [px [Ex Hx]]. apply in_map_iff in Hy as [py [Ey Hy]].
-  pose proof (rel_nodes_clean c t Hct) as Hcl. rewrite Forall_forall in Hcl.
+  pose proof (rel_nodes_clean sp t Hct) as Hcl. rewrite Forall_forall in Hcl.
   pose proof (rel_nodes_nonempty t) as Hn. rewrite Forall_forall in Hn. subst x y.
-  apply (path_name_inj c) in E.
+  apply (path_name_inj sp) in E.
   - apply app_inv_head in E. exact E.
   - intros E0. apply app_eq_nil in E0 as [_ E0]. apply (Hn px Hx). exact E0.
   - intros E0. apply app_eq_nil in E0 as [_ E0]. apply (Hn py Hy). exact E0.
@@ -1729,10 +1692,10 @@ Proof.
 Qed.
 
 (* C06_dict_records for Node trees: exactly one (path, record) item per selected node, in pre-order *)
-Theorem tree_to_dict_records c root p o t :
-  valid_tree root = true -> sep_safe [c] root = true -> subtree_at root p = Some t ->
-  tree_to_dict root [c] p o
-  = Ret (map (fun x => (c_path [c] x, dict_record o x))
+Theorem tree_to_dict_records sp root p o t :
+  valid_tree root = true -> sep_free sp root = true -> subtree_at root p = Some t ->
+  tree_to_dict root sp p o
+  = Ret (map (fun x => (c_path sp x, dict_record o x))
              (filter (selected o) (nodes_under (anc_names root p) t))).
 Proof.
   intros Hv Hs Hp. apply tree_to_dict_map.
